@@ -1,5 +1,5 @@
 (* C09 driver.
-   input  = (fx fs (defs: forest ...) (ann: forest) (ops: E|S|C|V ...))
+   input  = (fx fs (defs: forest ...) (ann: forest) (ops: E|S|C|V|O ...))
      node = (T base ext org) | (G node ...) ; base = D | X | N | (O name tv ur)
      strings are lists of code points
    output = (ok (wf (nissues ...) ((key name takes contents|None) ...)) (step ...))
@@ -22,7 +22,7 @@ let rec sx_node (x : sx) : node = match x with
 let sx_forest (x : sx) : forest = List.map sx_node (sx_list x)
 
 let sx_op (x : sx) : op = match x with
-  | A "E" -> OpExpand | A "S" -> OpShrink | A "C" -> OpCopy | A "V" -> OpValidate
+  | A "E" -> OpExpand | A "S" -> OpShrink | A "C" -> OpCopy | A "V" -> OpValidate | A "O" -> OpSwap
   | _ -> failwith "op"
 
 let flags_sx l = L (List.map (fun (s, (c, x)) -> L [str_sx s; bool_sx c; bool_sx x]) l)
@@ -49,7 +49,9 @@ let () = main_loop (fun x ->
     let dict_sx = L (List.map (fun (k, e) ->
         L [str_sx k; str_sx e.ename; bool_sx e.etakes;
            (match e.econtents with None -> A "None" | Some c -> str_sx (str_node (G c)))]) d) in
-    let state_sx (h : store res) (o : oforest res) (t : forest res) : sx =
+    let state_sx (h : store res) (o : ostate res) (t : tstate res) : sx =
+      let o = (match o with Ok (f, _) -> Ok f | Exn e -> Exn e) in
+      let t = (match t with Ok (f, _) -> Ok f | Exn e -> Exn e) in
       let hs = match h with
         | Exn e -> L [A "exn"; exn_sx e]
         | Ok s -> (match abs s with
@@ -75,7 +77,7 @@ let () = main_loop (fun x ->
       match ops with
       | [] -> List.rev acc
       | p :: ops' ->
-        go (bindr h (step fx d p)) (bindr o (step_o fx d p)) (bindr t (step_t d p)) ops' acc in
-    let steps = go (Ok (load ann)) (Ok (load_o ann)) (Ok ann) ops [] in
+        go (bindr h (step fx d p)) (bindr o (step_os fx d p)) (bindr t (step_ts d p)) ops' acc in
+    let steps = go (Ok (load ann)) (Ok (load_o ann, [])) (Ok (ann, [])) ops [] in
     L [A "ok"; L [bool_sx (wf_dict d); L counts; dict_sx]; L steps]
   | _ -> failwith "case")
